@@ -91,17 +91,14 @@ def closedChain (predefs : List Var) (iv : Var) : List Stmt → List Var → Boo
 loop-level step):
 * `pre` (the statements of the body in front of the rotated setup) are pure operations in SSA order that do not define
   the induction variable; the setup names no field twice;
-* the cloned input chain is closed and covers every variable of the setup that `pre` defines;
+  (then the cloned input chain is closed and covers every variable of the setup that `pre` defines: `inputChain_closed`);
 * the step and the induction variable are not redefined in the loop body;
 * all variables of the loop are below `fresh` (the clones get the ids from `fresh` on). -/
 def loopSide (_a : AccId) (fs : List (Field × Var)) (pre after : List Stmt) (lb ub st iv : Var) (fresh : Nat) : Bool :=
-  let chain := inputChain pre.reverse (fs.map (·.2))
   let predefs := pre.flatMap pureDef
   let bodyDefs := predefs ++ defsB (Block.ofList after)
   pre.all isPure && pureSSA pre && !predefs.contains iv &&
   decide (fs.map (·.1)).Nodup &&
-  closedChain predefs iv chain [iv] &&
-  (fs.map (·.2)).all (fun x => (iv :: chain.flatMap pureDef).contains x || !predefs.contains x) &&
   !bodyDefs.contains st && !bodyDefs.contains iv && st != iv &&
   ([lb, ub, st, iv] ++ bodyDefs ++ readsB (Block.ofList (pre ++ after)) ++ fs.map (·.2)).all (fun x => x < fresh)
 
